@@ -154,6 +154,8 @@ class Check:
         for fn in sorted(os.listdir(tdir)):
             if not fn.endswith(".py"):
                 continue
+            if not (fn.startswith(self.pid.lower() + "_") or fn.startswith("all_")):
+                continue
             rc, out = sh([sys.executable, os.path.join(tdir, fn), REPO, os.path.join(COQ, "Gen")],
                          env=impl_env(), timeout=300)
             if rc != 0:
